@@ -182,6 +182,7 @@ class NormalRunner:
             if step.get("negative"):
                 idx = [i - p if k % 2 == 0 else i for k, i in enumerate(idx)]      # -1 .. -p are legal numpy indices
             args_store = []
+            order_flip = [False]
 
             def call(m):
                 if op == "sample":
@@ -195,9 +196,13 @@ class NormalRunner:
                         return None
                     k = max(1, len(idx) // 2)
                     Y, Xi = list(idx[:k]), list(idx[k:])
+                    if order_flip[0]:
+                        Xi = Xi[::-1]
                     if step.get("as_array"):
                         Y, Xi = np.array(Y, dtype=np.int64), np.array(Xi, dtype=np.int64)
                     x = np.arange(len(Xi), dtype=float) - 0.5
+                    if order_flip[0]:
+                        x = x[::-1].copy()
                     args_store.extend([Y, Xi, x])
                     return m.conditional(Y, Xi, x)
                 if op == "regress":
@@ -234,6 +239,19 @@ class NormalRunner:
                 for b in (self.model.mean, self.model.covariance):
                     if np.shares_memory(a, b):
                         raise Violation("result_aliases_model", "%s returned an array sharing memory with the distribution's storage" % op)
+            if op == "conditional" and len(idx) >= 3:
+                # the same conditioning set in the opposite order (values permuted alike), on the same object: compared
+                # with a fresh distribution that has never seen the first order
+                order_flip[0] = True
+                args_store = []
+                res_b = must(lib(call, self.model), "conditional (conditioning variables reversed)")
+                fresh_b = must(lib(sempler.NormalDistribution, *[a.copy() for a in self.pristine]), "fresh NormalDistribution")
+                args_store = []
+                want_b = must(lib(call, fresh_b), "fresh conditional (reversed)")
+                if _snap(_arrays(res_b)) != _snap(_arrays(want_b)):
+                    raise Violation("history_dependent", "conditional with the conditioning variables %s in reversed order differs from the same "
+                                    "call on a fresh distribution (a result of the first order is being reused)" % (idx[max(1, len(idx) // 2):],))
+                order_flip[0] = False
             self.returned += _arrays(res)
             self.n_intervened += 1
             if self.n_mutations:
